@@ -277,7 +277,9 @@ Definition run_body (h : heap) (params : list name) (body : fbody) (clos : list 
   | BDotCall p cargs =>
     match dot_get_set h (zip_params params args) clos p None with
     | Err e => Err e
-    | Ok (_, VFun _ params' body' clos') => run_body_simple h params' body' clos' (map VInt cargs)
+    | Ok (_, VFun _ params' body' clos') =>
+      if Nat.eqb (length params') (length cargs)      (* "F expected n arguments, got m" *)
+      then run_body_simple h params' body' clos' (map VInt cargs) else Err ENotFun
     | Ok (_, v) => match cargs with [] => Ok (h, v) | _ => Err ENotFun end
     end
   | _ => run_body_simple h params body clos args
@@ -290,7 +292,8 @@ Definition call_path (h : heap) (frame : list (name * val)) (stack : list nat) (
   : res (heap * val) :=
   match dot_get_set h frame stack path None with
   | Err e => Err e
-  | Ok (_, VFun _ params body clos) => run_body h params body clos args
+  | Ok (_, VFun _ params body clos) =>
+    if Nat.eqb (length params) (length args) then run_body h params body clos args else Err ENotFun
   | Ok (_, v) => match args with [] => Ok (h, v) | _ => Err ENotFun end
   end.
 
